@@ -88,10 +88,45 @@ theorem schedule_ok {e e' : Exec} {pk b : Bool} (h : e.schedule pk = .ok (e', b)
           exact ⟨none, hd, hb, rfl, by assumption, rfl, rfl⟩
         · cases h
       · rename_i p2 nid hb
+        split at h
+        · cases h
         have := finish_path h
         refine ⟨some nid, hd, ?_, this.2.1, ?_⟩
         · rw [this.1]; exact hb
         · simp only; rw [this.1]; exact h
+
+/-- a successful `schedule` never activates a thread that is not in the thread table (the code indexes the
+table with the chosen id: `Exec.schedule` throws `.internal 31`) -/
+theorem schedule_active_lt {e e' : Exec} {pk b : Bool} (h : e.schedule pk = .ok (e', b)) {nid : Nat}
+    (hn : e'.threads.active = some nid) : nid < e.threads.threads.length := by
+  rw [schedule_eq] at h
+  split at h
+  · cases h
+  · split at h
+    · cases h
+    · split at h
+      · cases h
+      · split at h
+        · cases h; cases hn
+        · cases h
+      · rename_i p2 nid' hb
+        split at h
+        · cases h
+        · rename_i hlt
+          have := (finish_path h).2.1
+          rw [hn] at this
+          cases this
+          omega
+
+/-- `schedule` never changes the number of threads -/
+theorem schedule_length {e e' : Exec} {pk b : Bool} (h : e.schedule pk = .ok (e', b)) :
+    e'.threads.threads.length = e.threads.threads.length := by
+  unfold Exec.schedule at h
+  simp only [bind, Except.bind, pure, Except.pure] at h
+  repeat' split at h
+  all_goals first
+    | (cases h; done)
+    | (cases h; simp [Threads.modify])
 
 /-- `Exec.schedule_frame` -/
 theorem schedule_frame {e e' : Exec} {pk b : Bool} (h : e.schedule pk = .ok (e', b)) :
@@ -510,7 +545,12 @@ theorem schedule_traversed_eq {e : Exec} {pk : Bool} {p1 : Path}
     rw [Path.newSched_threads]
     exact (newThreads_seed e hc).2
   rw [hidx]
-  cases choice e.threads <;> rfl
+  cases hch : choice e.threads with
+  | none => rfl
+  | some nid =>
+    have := choice_lt hc hch
+    simp only [ge_iff_le, Nat.not_le.2 this, if_false]
+    rfl
 
 theorem lastDependentAccess_error {os : Objs} {op : Operation} {err : Panic}
     (h : os.lastDependentAccess op = .error err) : err = .internal 20 := by
